@@ -167,6 +167,22 @@ func TestVerifBounded_C02_GFFRoundTrip(t *testing.T) {
 			}
 		}
 	}
+	// an inline sequence whose name holds a blank (recorded finding, sibling of the region name)
+	{
+		cases++
+		s := linear.NewSeq("my seq", alphabet.BytesToLetters([]byte("acgt")), alphabet.DNA)
+		var buf bytes.Buffer
+		w := NewWriter(&buf, 60, false)
+		if n, err := w.Write(s); err != nil || n != buf.Len() {
+			t.Fatalf("sequence write: n=%d emitted=%d err=%v", n, buf.Len(), err)
+		}
+		got := verifReadAll(t, buf.Bytes())
+		if g, ok := got[0].(*linear.Seq); len(got) != 1 || !ok || string(alphabet.LettersToBytes(g.Seq)) != "acgt" {
+			t.Fatalf("%q read back as %+v", buf.String(), got)
+		} else if g.ID != "my seq" {
+			fmt.Printf("FINDING id=inline-seq-name-blank cases=1 example=%q\n", fmt.Sprintf("%q read back with name %q", buf.String(), g.ID))
+		}
+	}
 	if blankName > 0 {
 		fmt.Printf("FINDING id=region-name-blank cases=%d example=%q\n", blankName, blankExample)
 	}
